@@ -17,7 +17,8 @@ func init() {
 			"(3) SkipList.Insert advances exactly while next < e in comparator order (so an equal entry is inserted before older equals), links the new node's own pointer before redirecting the predecessor, bottom-up, through atomic pointers; " +
 			"(4) node and entry fields are written only in their constructors and newEntry copies key and value; " +
 			"(5) Insert is called only from MemTable.Put/Delete with MemTable.mu held exclusively; the IsImmutable test dominates Insert; immutable is only ever stored true; SwitchToNewMemTable marks the old table before publishing the new one under the pool's write lock; " +
-			"(6) Iterator.isVisible ⇔ snapshot == 0 ∨ seq ≤ snapshot (table), Next/Seek/SeekToFirst each contain the skip-invisible loop and Valid tests visibility; MemTable.Put/Delete keep nextSeqNum under a > guard.",
+			"(6) Iterator.isVisible ⇔ snapshot == 0 ∨ seq ≤ snapshot (table), Next/Seek/SeekToFirst each contain the skip-invisible loop and Valid tests visibility; MemTable.Put/Delete keep nextSeqNum under a > guard. " +
+			"Added after blind round 4: MemTable.Get's decision table over both arms (no entry → (nil,false), deletion marker → (nil,true), value → (value,true)).",
 		NotDecided: "what concurrent readers observe under all interleavings (needs schedules); memory-model arguments beyond 'links are atomic.Pointer and published after initialisation'.",
 		Rules:      []func(*Ctx, *Reporter){ruleMemComparator, ruleMemFind, ruleMemInsert, ruleMemImmutableFields, ruleMemSingleWriter, ruleMemImmutable, ruleMemVisibility, ruleMemTableGetTable},
 	})
